@@ -282,7 +282,8 @@ def run(prog: Program, L: Ledger) -> None:
     step0 = mc.methods.get("step")
     if step0 is None:
         raise AnalysisError("MonteCarlo.step missing")
-    step = flat(prog, step0, mc)
+    # public pieces of the trial (an `attempt_move(name)`, an `update_acceptance_rate()`) are seen through
+    step = flat(prog, step0, mc, keep=("yield_moves", "save_state", "revert_state", "evaluate", "add_move", "to_dict", "from_dict", "validate_simulation"), public_methods=True)
     loops = [s for s in step.body() if isinstance(s, ast.For) and norm(s.iter) == "self.yield_moves()"]
     if len(loops) != 1:
         raise AnalysisError("MonteCarlo.step: loop over yield_moves not found")
